@@ -21,6 +21,7 @@ import (
 const c03Rule = "rapid: one stored, completed request (original request ID, consumer URL, RelayState, application id and the audience it maps to: strings of legal XML characters incl. & < > \" ' CR LF TAB, edge blanks, entity look-alikes, non-ASCII and astral characters) x a user record (each standard attribute set/unset, 0..3 custom attributes with 0..3 values incl. empty strings, friendly names and formats) x binding POST / Redirect x issuer (static with/without path and trailing slash, host-derived, Forwarded-derived) x metadata endpoint path x timestamp layout (default, RFC 3339, nanoseconds, seconds), driven through the callback endpoint. Oracle: field-for-field comparison of the decoded Success response with the storage model (InResponseTo on response and subject confirmation, Destination = Recipient, both Issuers, single Audience, NameID, attribute statement as a multiset with value lists in order, RelayState, NotBefore = IssueInstant inside the wall-clock bracket of the call, NotOnOrAfter - IssueInstant = 5 min, fresh distinct NCName IDs). Non-trivial: at least one compared string needs escaping or is non-ASCII. Distinct by (binding, set of fields with special characters, attribute-statement shape, configuration)."
 
 type C03Case struct {
+	Noise   bool        `json:"noise,omitempty"`
 	Spec    world.Spec  `json:"spec"`
 	Host    string      `json:"host"`
 	Headers [][2]string `json:"headers,omitempty"`
@@ -52,7 +53,7 @@ func genC03Case(t *rapid.T) C03Case {
 		AuthRequestID: xt.LegalString(4).Draw(t, "authreqid"), UserID: u.UserID, Done: true}
 	spec := world.Spec{IdP: idp, SPs: []world.SPSpec{stdSP(0)}, Users: []world.UserSpec{u, stdUser(1)},
 		Apps: map[string]string{appID: genNonEmptyLegal(t, "audience", 5), "other-app": "https://other-audience.example"}, Requests: []world.RequestSpec{req}}
-	c := C03Case{Spec: spec, Host: rapid.SampledFrom(reqHosts).Draw(t, "host"), Method: rapid.SampledFrom([]string{"GET", "POST"}).Draw(t, "method")}
+	c := C03Case{Noise: rapid.IntRange(0, 1).Draw(t, "noise") == 0, Spec: spec, Host: rapid.SampledFrom(reqHosts).Draw(t, "host"), Method: rapid.SampledFrom([]string{"GET", "POST"}).Draw(t, "method")}
 	if idp.IssuerMode == "forwarded" && rapid.Bool().Draw(t, "fwd") {
 		c.Headers = [][2]string{{"Forwarded", "for=192.0.2.1;host=" + rapid.SampledFrom([]string{"public.idp.example", "\"proxy.example:444\""}).Draw(t, "fwdhost")}}
 	}
@@ -276,7 +277,14 @@ func TestC03(t *testing.T) {
 	col := ev.For("C03", "exploration", c03Rule)
 	col.Assume("the IdP and the harness read the same wall clock; the assertion lifetime is the library default of 5 minutes (no option changes it)")
 	searchRapid(t, col, genC03Case, func(c C03Case) []*ev.Violation {
-		w := mustBuild(c.Spec)
+		wspec := c.Spec
+		if c.Noise {
+			wspec = withNoise(wspec)
+		}
+		w := mustBuild(wspec)
+		if c.Noise {
+			runNoise(w, wspec)
+		}
 		req := c.Spec.Requests[0]
 		u := c.Spec.Users[0]
 		hr := obs.HTTPReq{Method: "GET", Path: c.Spec.IdP.Route("callback"), RawQuery: "id=" + qesc(req.ID), Host: c.Host, Headers: c.Headers}
@@ -288,6 +296,9 @@ func TestC03(t *testing.T) {
 		t1 := time.Now()
 		host := effHost(SSOCase{Spec: c.Spec, Host: c.Host, Headers: c.Headers})
 		vs, d := c03Compare(c.Spec, host, req, u, rep, t0, t1)
+		if c.Noise && noiseLeak(rep) {
+			vs = append(vs, ev.V("C03/foreign-state-in-reply", "the reply carries data of an unrelated service provider / user that used the provider earlier"))
+		}
 		var special []string
 		for name, s := range map[string]string{"reqid": req.AuthRequestID, "acs": req.ACS, "relay": req.RelayState, "audience": c.Spec.Apps[req.AppID], "username": u.Username} {
 			if xt.HasSpecial(s) {
